@@ -33,6 +33,7 @@ def handle(job):
     # effective decay of the run (reset_preconditioner forces beta2 = 1)
     twin_o = dict(o, S=1, P=1, average_grad=False, reset=False, beta2=(1.0 if R != 0 else beta2))
     prev = None
+    tw = dsrun.Runner(twin_o, shapes, seed)      # one compiled twin, state reset per comparison
     for t in range(T):
       r.step(grads[t])
       st = r.host_state().stats["p0"]
@@ -47,7 +48,7 @@ def handle(job):
         mism.append({"clause": "fd_sketch_not_refreshed", "step": t})
       prev = precs
       # twin: feed the spec's windows
-      tw = dsrun.Runner(twin_o, shapes, seed)
+      tw.reset()
       for w in exp["sketch"]:
         g = sum(np.asarray(grads[n]["p0"], np.float32) for n in w)
         if avg:
